@@ -221,7 +221,7 @@ func e4Function(c *Ctx, s *obSink, fn *ssa.Function, closure map[*ssa.Function]b
 					}
 				}
 				// contracts: module decoder functions and the trusted skipper
-				isSkip := callee != nil && callee.Name() == "Skip" && strings.Contains(callee.String(), "gopkg/protocol/thrift")
+				isSkip := isTrustedSkip(callee)
 				if callee != nil && (closure[callee] && hasContract(callee) || isSkip) {
 					var arg ssa.Value
 					for _, ar := range x.Call.Args {
@@ -464,7 +464,7 @@ func e4Function(c *Ctx, s *obSink, fn *ssa.Function, closure map[*ssa.Function]b
 			// tail call of a contract callee on the whole input
 			if ex, ok := nv.(*ssa.Extract); ok {
 				if call, ok := ex.Tuple.(*ssa.Call); ok && ex.Index == 0 {
-					if callee := call.Call.StaticCallee(); callee != nil && closure[callee] && hasContract(callee) {
+					if callee := call.Call.StaticCallee(); callee != nil && (closure[callee] && hasContract(callee) || isTrustedSkip(callee)) {
 						var arg ssa.Value
 						for _, ar := range call.Call.Args {
 							if isByteSlice(ar.Type()) {
@@ -533,3 +533,36 @@ func unspill(v ssa.Value, b *ssa.BasicBlock) ssa.Value {
 }
 
 var _ = types.Typ
+
+// isTrustedSkip: the thrift package's skipper, whose (n, err) contract is assumed (see the property table) - its panics are
+// not: rule E4.array-index covers its table lookups.
+func isTrustedSkip(f *ssa.Function) bool {
+	return f != nil && f.Name() == "Skip" && strings.Contains(f.String(), "gopkg/protocol/thrift")
+}
+
+// skipWrapperOf: f is a module function that hands its input and its type-code parameter to the thrift skipper and returns
+// the skipper's results; it returns the index of the type-code parameter, or -1.
+func skipWrapperOf(f *ssa.Function) int {
+	if f == nil || f.Blocks == nil || !hasContract(f) {
+		return -1
+	}
+	for _, b := range f.Blocks {
+		for _, ins := range b.Instrs {
+			call, ok := ins.(*ssa.Call)
+			if !ok || !isTrustedSkip(call.Call.StaticCallee()) {
+				continue
+			}
+			args := call.Call.Args
+			if len(args) < 2 || args[len(args)-2] != ssa.Value(inputParam(f)) {
+				return -1
+			}
+			tt := stripConv(args[len(args)-1])
+			for k, prm := range f.Params {
+				if tt == ssa.Value(prm) {
+					return k
+				}
+			}
+		}
+	}
+	return -1
+}
